@@ -115,6 +115,24 @@ pub fn cred_json(c: &CredDesc) -> Value {
     }
 }
 
+/// text for the text-valued attributes: mostly arbitrary UTF-8, sometimes text with a shape that some other layer gives a
+/// meaning to (quoted strings, line breaks, the RFC 8489 nonce cookie, blank or BOM edges, an upper-case domain)
+pub fn rand_text(rng: &mut StdRng, nbytes: usize) -> String {
+    if nbytes < 2 || rng.gen_bool(0.7) {
+        return rand_utf8(rng, nbytes);
+    }
+    let shape = rng.gen_range(0..9);
+    let (pre, post): (&str, &str) = match shape {
+        0 => ("\"", "\""), 1 => ("\"", ""), 2 => ("", "\n"), 3 => ("line\n", ""), 4 => ("obMatJos2", ""), 5 => (" ", " "),
+        6 => ("\u{feff}", ""), 7 => ("EXAMPLE.Org", ""), _ => ("", "\r\n"),
+    };
+    if pre.len() + post.len() > nbytes {
+        return rand_utf8(rng, nbytes);
+    }
+    let core = rand_utf8(rng, nbytes - pre.len() - post.len());
+    format!("{pre}{core}{post}")
+}
+
 fn len_pick(rng: &mut StdRng, max: usize) -> usize {
     match rng.gen_range(0..10) {
         0 => 0,
@@ -128,12 +146,12 @@ fn len_pick(rng: &mut StdRng, max: usize) -> usize {
 /// a random attribute of built-in kind k (0..=15) or a raw unknown attribute; returns (boxed attr, description)
 pub fn rand_attr(rng: &mut StdRng, k: usize, tid: TransactionId) -> (Box<dyn AttributeWrite>, Value) {
     match k {
-        0 => { let n = len_pick(rng, 513); let s = rand_utf8(rng, n); (Box::new(Username::new(&s).unwrap()), json!({"t": 6, "text": s.as_bytes()})) }
-        1 => { let n = len_pick(rng, 763); let s = rand_utf8(rng, n); (Box::new(Realm::new(&s).unwrap()), json!({"t": 20, "text": s.as_bytes()})) }
-        2 => { let n = len_pick(rng, 763); let s = rand_utf8(rng, n); (Box::new(Nonce::new(&s).unwrap()), json!({"t": 21, "text": s.as_bytes()})) }
-        3 => { let n = len_pick(rng, 763); let s = rand_utf8(rng, n); (Box::new(Software::new(&s).unwrap()), json!({"t": 32802, "text": s.as_bytes()})) }
-        4 => { let n = len_pick(rng, 300); let s = rand_utf8(rng, n); (Box::new(AlternateDomain::new(&s)), json!({"t": 32771, "text": s.as_bytes()})) }
-        5 => { let code = *[300u16, 399, 400, 401, 420, 438, 500, 699, rng.gen_range(300..700)].choose(rng).unwrap(); let n = len_pick(rng, 763); let s = rand_utf8(rng, n);
+        0 => { let n = len_pick(rng, 513); let s = rand_text(rng, n); (Box::new(Username::new(&s).unwrap()), json!({"t": 6, "text": s.as_bytes()})) }
+        1 => { let n = len_pick(rng, 763); let s = rand_text(rng, n); (Box::new(Realm::new(&s).unwrap()), json!({"t": 20, "text": s.as_bytes()})) }
+        2 => { let n = len_pick(rng, 763); let s = rand_text(rng, n); (Box::new(Nonce::new(&s).unwrap()), json!({"t": 21, "text": s.as_bytes()})) }
+        3 => { let n = len_pick(rng, 763); let s = rand_text(rng, n); (Box::new(Software::new(&s).unwrap()), json!({"t": 32802, "text": s.as_bytes()})) }
+        4 => { let n = len_pick(rng, 300); let s = rand_text(rng, n); (Box::new(AlternateDomain::new(&s)), json!({"t": 32771, "text": s.as_bytes()})) }
+        5 => { let code = *[300u16, 399, 400, 401, 420, 438, 500, 699, rng.gen_range(300..700)].choose(rng).unwrap(); let n = len_pick(rng, 763); let s = rand_text(rng, n);
                (Box::new(ErrorCode::new(code, &s).unwrap()), json!({"t": 9, "code": code, "text": s.as_bytes()})) }
         6 => { let n = rng.gen_range(0..6);
                // repeated and unsorted entries on purpose
@@ -364,6 +382,96 @@ pub fn main_genpaths(args: &[String]) {
         }));
         match r { Ok(p) => problems.extend(p), Err(_) => problems.push("panic".into()) }
         writeln!(out, "{}", json!({"id": i, "problems": problems})).unwrap();
+    }
+    out.flush().unwrap();
+}
+
+/// `stunh genops <n> <seed> <out>`: random operation sequences (C11: "random longer ones") on builders of every origin -
+/// Message::builder, builder_success / builder_error, bad_request, unknown_attributes, check_attribute_types - over all 19
+/// built-in attribute types and raw ones.  Records what the builder answered; the rules are the specification's (TLC judges).
+pub fn main_genops(args: &[String]) {
+    let n: usize = args[0].parse().unwrap();
+    let seed: u64 = args[1].parse().unwrap();
+    let mut out = std::io::BufWriter::new(std::fs::File::create(&args[2]).expect("out"));
+    let mut rng = StdRng::seed_from_u64(seed ^ 0xc11);
+    let cred_desc = CredDesc { long: false, user: String::new(), realm: String::new(), password: "genops key".into() };
+    let cred = lib_cred(&cred_desc);
+    for i in 0..n {
+        // a request some of the builders answer (leaked: the helpers tie their result to the message's lifetime)
+        let rtid = TransactionId::from(rng.gen::<u128>() >> 32);
+        let rmethod: u16 = *[1u16, 0x0fff, 0x0400, rng.gen_range(0..0x1000)].choose(&mut rng).unwrap();
+        let mut rb = Message::builder(MessageType::from_class_method(MessageClass::Request, rmethod), rtid);
+        let _ = rb.add_raw_attribute(RawAttribute::new(AttributeType::new(0x7e01), &[1, 2, 3]));
+        let prio = Priority::new(7);
+        let _ = rb.add_attribute(&prio);
+        let req_bytes: &'static [u8] = Box::leak(rb.build().into_boxed_slice());
+        let req: &'static Message<'static> = Box::leak(Box::new(Message::from_bytes(req_bytes).unwrap()));
+        // attributes the sequence may add (kept alive longer than the builder): distinct kinds, plus an ERROR-CODE with an empty
+        // reason and a second value of an already chosen kind for the duplicate attempts
+        let tid = TransactionId::from(rng.gen::<u128>() >> 32);
+        let mut kinds: Vec<usize> = (0..20).collect();
+        kinds.shuffle(&mut rng);
+        let mut pool: Vec<Box<dyn AttributeWrite>> = kinds.iter().take(6).map(|k| rand_attr(&mut rng, *k, tid).0).collect();
+        pool.push(Box::new(ErrorCode::new(*[300u16, 420, 699].choose(&mut rng).unwrap(), "").unwrap()));
+        pool.push(Box::new(Software::new("another software").unwrap()));
+        pool.push(rand_attr(&mut rng, kinds[0], tid).0);
+        let origin = rng.gen_range(0..7);
+        let (start, mut b): (&str, MessageBuilder) = match origin {
+            0 => ("builder_success", Message::builder_success(req)),
+            1 => ("builder_error", Message::builder_error(req)),
+            2 => ("bad_request", Message::bad_request(req)),
+            3 => ("unknown_attributes", Message::unknown_attributes(req, &[AttributeType::new(0x7e01), AttributeType::new(0x0024)])),
+            4 => match Message::check_attribute_types(req, &[Priority::TYPE], &[]) { Some(x) => ("check_attribute_types (420)", x), None => ("builder", Message::builder(MessageType::from_class_method(MessageClass::Request, 1), tid)) },
+            5 => match Message::check_attribute_types(req, &[Priority::TYPE, AttributeType::new(0x7e01)], &[Username::TYPE]) { Some(x) => ("check_attribute_types (400)", x), None => ("builder", Message::builder(MessageType::from_class_method(MessageClass::Request, 1), tid)) },
+            _ => ("builder", Message::builder(MessageType::from_class_method(*[MessageClass::Request, MessageClass::Indication, MessageClass::Success, MessageClass::Error].choose(&mut rng).unwrap(), rng.gen_range(0..0x1000)), tid)),
+        };
+        let initial = b.build();
+        let mut probe: Vec<u16> = pool.iter().map(|a| a.get_type().value()).collect();
+        probe.extend_from_slice(&[8, 28, 0x8028, 0x8022, 9, 10, 0x7e01, 0]);
+        probe.sort();
+        probe.dedup();
+        let mut ops: Vec<Value> = vec![];
+        let nops = rng.gen_range(1..14);
+        for _ in 0..nops {
+            let before = std::panic::catch_unwind(std::panic::AssertUnwindSafe(|| b.build())).unwrap_or_default();
+            let which = rng.gen_range(0..12);
+            let mut rec = json!({});
+            let res: std::thread::Result<Result<(), StunWriteError>> = match which {
+                0..=4 => {
+                    let a = pool.choose(&mut rng).unwrap();
+                    rec = json!({"op": "add_attribute", "type": a.get_type().value()});
+                    if matches!(a.get_type().value(), 8 | 28 | 0x8028) { continue; }     // (documented panics: the exhaustive walk has them)
+                    std::panic::catch_unwind(std::panic::AssertUnwindSafe(|| b.add_attribute(a.as_ref())))
+                }
+                5 | 6 => {
+                    let a = pool.choose(&mut rng).unwrap();
+                    if matches!(a.get_type().value(), 8 | 28 | 0x8028) { continue; }
+                    rec = json!({"op": "add_raw_attribute", "type": a.get_type().value()});
+                    let raw = a.to_raw().into_owned();
+                    std::panic::catch_unwind(std::panic::AssertUnwindSafe(|| b.add_raw_attribute(raw)))
+                }
+                7 => { rec = json!({"op": "add_integrity", "type": 8}); std::panic::catch_unwind(std::panic::AssertUnwindSafe(|| b.add_message_integrity(&cred, IntegrityAlgorithm::Sha1))) }
+                8 => { rec = json!({"op": "add_integrity", "type": 28}); std::panic::catch_unwind(std::panic::AssertUnwindSafe(|| b.add_message_integrity(&cred, IntegrityAlgorithm::Sha256))) }
+                9 => { rec = json!({"op": "add_fingerprint", "type": 0x8028}); std::panic::catch_unwind(std::panic::AssertUnwindSafe(|| b.add_fingerprint())) }
+                10 => { rec = json!({"op": "into_owned", "type": -1}); b = b.into_owned(); Ok(Ok(())) }
+                _ => { rec = json!({"op": "clone", "type": -1}); b = b.clone(); Ok(Ok(())) }
+            };
+            let after = std::panic::catch_unwind(std::panic::AssertUnwindSafe(|| b.build())).unwrap_or_default();
+            rec["ok"] = json!(matches!(res, Ok(Ok(()))));
+            rec["err"] = match &res { Ok(Ok(())) => json!(""), Ok(Err(e)) => json!(format!("{e:?}")), Err(_) => json!("panic") };
+            rec["changed"] = json!(before != after);
+            rec["has"] = json!(probe.iter().map(|t| b.has_attribute(AttributeType::new(*t))).collect::<Vec<bool>>());
+            ops.push(rec);
+        }
+        let fin = std::panic::catch_unwind(std::panic::AssertUnwindSafe(|| {
+            let bytes = b.build();
+            let mut dirty = vec![0x5au8; b.byte_len() + 3];
+            let via_write = b.write_into(&mut dirty).ok().map(|k| dirty[..k.min(dirty.len())].to_vec());
+            (bytes, b.byte_len(), via_write)
+        }));
+        let (bytes, blen, via_write) = fin.unwrap_or((vec![], 0, None));
+        writeln!(out, "{}", json!({"id": i, "start": start, "initial": initial, "probe": probe, "ops": ops, "bytes": bytes, "byte_len": blen,
+            "write_into_same": via_write.as_deref() == Some(&bytes[..]), "creds": [cred_json(&cred_desc)]})).unwrap();
     }
     out.flush().unwrap();
 }
